@@ -356,9 +356,39 @@ fn double_rejections(out: &mut Out, thorough: bool) {
     }
 }
 
+/// the largest dimensions `Prio2::new` admits (2n = 2^20 evaluation points): an honest 0/1 vector is sharded by the
+/// real client, accepted by both aggregators and aggregated
+fn largest_dimensions(out: &mut Out, rng: &mut Sm, thorough: bool) {
+    use prio::vdaf::{Aggregator, Client, Collector};
+    let dims: Vec<usize> = if thorough { vec![1 << 18, (1 << 19) - 1] } else { vec![(1 << 19) - 1] };
+    for dim in dims {
+        let Ok(v) = Prio2::new(dim) else {
+            out.oracle(false, || format!("Prio2::new({})", dim), || "refused".into());
+            continue;
+        };
+        let m: Vec<u32> = (0..dim).map(|i| ((i * 7 + (rng.next() as usize & 1)) % 3 == 0) as u32).collect();
+        let nonce: [u8; 16] = rng.bytes(16).try_into().unwrap();
+        let key: [u8; 32] = rng.bytes(32).try_into().unwrap();
+        let r = crate::util::catch(std::panic::AssertUnwindSafe(|| -> Result<bool, String> {
+            let (ps, ins) = v.shard(b"", &m, &nonce).map_err(|e| format!("shard: {e}"))?;
+            let (s0, v0) = v.verify_init(&key, b"", 0, &(), &nonce, &ps, &ins[0]).map_err(|e| format!("verify_init 0: {e}"))?;
+            let (s1, v1) = v.verify_init(&key, b"", 1, &(), &nonce, &ps, &ins[1]).map_err(|e| format!("verify_init 1: {e}"))?;
+            let msg = v.verifier_shares_to_message(b"", &(), [v0, v1]).map_err(|e| format!("combine: {e}"))?;
+            let (VerifyTransition::Finish(o0), VerifyTransition::Finish(o1)) = (v.verify_next(b"", s0, msg.clone()).map_err(|e| format!("verify_next 0: {e}"))?, v.verify_next(b"", s1, msg).map_err(|e| format!("verify_next 1: {e}"))?) else { return Err("no finish".into()) };
+            let a0 = v.aggregate(&(), [o0]).map_err(|e| e.to_string())?;
+            let a1 = v.aggregate(&(), [o1]).map_err(|e| e.to_string())?;
+            let res = v.unshard(&(), [a0, a1], 1).map_err(|e| e.to_string())?;
+            Ok(res == m)
+        }));
+        out.oracle(matches!(&r, Ok(Ok(true))), || format!("prio2 honest report at dimension {}", dim), || format!("{:?}", r));
+        out.count("largest-dimension");
+    }
+}
+
 pub fn run(out: &mut Out, thorough: bool, seed: u64) {
     let mut rng = Sm::new(seed ^ 0x1901);
     double_rejections(out, thorough);
+    largest_dimensions(out, &mut rng, thorough);
     let dims: Vec<usize> = if thorough { vec![1, 2, 3, 4, 5, 7, 8, 15, 16, 31, 32, 100, 255, 256, 1000] } else { vec![1, 2, 3, 4, 7, 8, 15, 16, 33, 100] };
     let reps = if thorough { 4 } else { 2 };
     for &dim in &dims {
